@@ -15,6 +15,8 @@ for c in C08 C09 C13 C14 C16 C17 C20; do
 done
 git checkout -q -- . ; git clean -fdq -- src tests
 git status --porcelain | grep -v '^??' | head -2
+# rebuild the simulator from the restored tree, so that a later direct use of the binary is not a mutant
+(cd /verif/sim && CARGO_NET_OFFLINE=true cargo build --release --offline >/dev/null 2>&1)
 find /verif/replays -name '*.json' -delete
 rm -f /dev/shm/benign.$$.log
 echo "$(basename $(dirname $(dirname $P)))/$(basename $P):$res"
